@@ -276,6 +276,10 @@
  * tables and machines lacking per-cpu data support.
  */
 #define COUNT_COMMIT_ORDER		10
+#if defined(URCU_VERIF) && defined(URCU_VERIF_COUNT_COMMIT_ORDER)
+#undef COUNT_COMMIT_ORDER
+#define COUNT_COMMIT_ORDER URCU_VERIF_COUNT_COMMIT_ORDER
+#endif
 #define DEFAULT_SPLIT_COUNT_MASK	0xFUL
 #define CHAIN_LEN_TARGET		1
 #define CHAIN_LEN_RESIZE_THRESHOLD	3
@@ -290,6 +294,10 @@
  * Minimum number of bucket nodes to touch per thread to parallelize grow/shrink.
  */
 #define MIN_PARTITION_PER_THREAD_ORDER	12
+#if defined(URCU_VERIF) && defined(URCU_VERIF_MIN_PARTITION_PER_THREAD_ORDER)
+#undef MIN_PARTITION_PER_THREAD_ORDER
+#define MIN_PARTITION_PER_THREAD_ORDER URCU_VERIF_MIN_PARTITION_PER_THREAD_ORDER
+#endif
 #define MIN_PARTITION_PER_THREAD	(1UL << MIN_PARTITION_PER_THREAD_ORDER)
 
 /*
